@@ -32,6 +32,11 @@ struct RegistryWorld : World {
 	std::string process_finding; const char *process_sig = "cxx-basic-id";
 	RegistryWorld() {
 		for (int i = 0; i < 64; ++i) g_traits_pool[i] = new type_traits(8 + (size_t) i, (i & 1) ? t_fini : 0, (i & 2) ? t_init : 0);
+	}
+	bool process_checked = false;
+	// (run by the first execution of the process rather than by the constructor: a sanitizer report in here then belongs to a run, with a replay file)
+	void process_checks() {
+		process_checked = true;
 		// once per process (the C++ layer keeps the answer in a function-local static, so no run can ask twice): the C++ "basic" metatype
 		// asks for the name "basic" and must end up with an id of its own in the metatype range even when the name is already taken
 		verif_registry_reset();
@@ -137,6 +142,7 @@ struct RegistryWorld : World {
 	}
 	void exec(const Plan &p, Log &log, Stats &st) override {
 		int early_if = 0;
+		if (!process_checked) process_checks();
 		if (!process_finding.empty()) fail(process_sig, "%s", process_finding.c_str());
 		{ Sut s; verif_registry_reset(); }
 		ledger_reset();
